@@ -12,6 +12,8 @@ import (
 	"go/token"
 	"go/types"
 	"strings"
+
+	"golang.org/x/tools/go/ssa"
 )
 
 func (e *Enc) tinvName(t types.Type) string {
@@ -97,15 +99,55 @@ func (e *Enc) tinvAt(st *State, addr string, t types.Type) string {
 	return sc.mat(sc.call(&SCall{Fn: fn, Args: []SExpr{&SIdent{Name: "$self"}}}))
 }
 
-// tinvTerm: invariant formula for a by-value term of type t.
+// tinvTerm: invariant formula for a by-value term of type t (its own invariant and those of the
+// struct values nested inside it).
 func (e *Enc) tinvTerm(st *State, term string, t types.Type) string {
-	fn := e.tinvName(t)
-	if fn == "" {
-		return "true"
+	var parts []string
+	if fn := e.tinvName(t); fn != "" {
+		sc := e.tinvCtx(st, "true")
+		sc.vars["$self"] = SV{T: term, Ty: t}
+		parts = append(parts, sc.mat(sc.call(&SCall{Fn: fn, Args: []SExpr{&SIdent{Name: "$self"}}})))
 	}
-	sc := e.tinvCtx(st, "true")
-	sc.vars["$self"] = SV{T: term, Ty: t}
-	return sc.mat(sc.call(&SCall{Fn: fn, Args: []SExpr{&SIdent{Name: "$self"}}}))
+	if isStruct(t) {
+		if si := e.m.structOf(t); si != nil {
+			for i := 0; i < si.st.NumFields(); i++ {
+				ft := si.st.Field(i).Type()
+				if isStruct(ft) && e.m.structOf(ft) != nil {
+					if p := e.tinvTerm(st, fmt.Sprintf("(%s %s)", fieldCtor(si, i), term), ft); p != "true" {
+						parts = append(parts, p)
+					}
+				}
+			}
+		}
+	}
+	switch len(parts) {
+	case 0:
+		return "true"
+	case 1:
+		return parts[0]
+	}
+	return "(and " + strings.Join(parts, " ") + ")"
+}
+
+// hasTinv: values of type t carry a type invariant (directly or in a nested struct field).
+func (e *Enc) hasTinv(t types.Type) bool {
+	if len(e.m.spec.TypeInvs) == 0 {
+		return false
+	}
+	if e.tinvName(t) != "" {
+		return true
+	}
+	if isStruct(t) {
+		if si := e.m.structOf(t); si != nil {
+			for i := 0; i < si.st.NumFields(); i++ {
+				ft := si.st.Field(i).Type()
+				if isStruct(ft) && e.m.structOf(ft) != nil && e.hasTinv(ft) {
+					return true
+				}
+			}
+		}
+	}
+	return false
 }
 
 // invPlaces lists (address, type) of every invariant-carrying value inside a struct of type t at addr.
@@ -157,6 +199,45 @@ func (e *Enc) tinvAssumeLoad(cur *cursor, addr string, t types.Type) {
 		}
 		e.tinvSeen[key] = true
 		e.assume(cur.guard, e.tinvAt(cur.st, a, pt))
+	}
+}
+
+// isLocalVarAlloc: a heap allocation that backs a named local variable whose address escapes
+// (`x, err := f(); ...; use(&x)`).  Such a variable may hold a not-yet-validated value (e.g. the result
+// of a failed call) until its address is published; its invariants are therefore checked when the
+// pointer is published (boxed into an interface, stored into the heap, returned), not at each assignment.
+func isLocalVarAlloc(v ssa.Value) (*ssa.Alloc, bool) {
+	al, ok := v.(*ssa.Alloc)
+	if !ok || !al.Heap {
+		return nil, false
+	}
+	switch al.Comment {
+	case "", "complit", "new", "varargs", "makeslice", "slicelit", "makechan":
+		return nil, false
+	}
+	return al, true
+}
+
+// publishCheck: pointer value v (an escaping local variable) is being published.
+func (e *Enc) publishCheck(cur *cursor, v ssa.Value, pos token.Pos, how string) {
+	al, ok := isLocalVarAlloc(v)
+	if !ok || len(e.m.spec.TypeInvs) == 0 {
+		return
+	}
+	et := al.Type().(*types.Pointer).Elem()
+	if !isStruct(et) {
+		return
+	}
+	pv, ok := cur.fc.vals[al]
+	if !ok || pv.K != vTerm {
+		return
+	}
+	var places [][2]interface{}
+	e.invPlaces(pv.T, et, &places)
+	for _, p := range places {
+		a, pt := p[0].(string), p[1].(types.Type)
+		tag := cur.fc.tag
+		e.oblige(cur.guard, "tinv", fmt.Sprintf("%spublish#%d", tag, e.ordinal(tag+"publish")), e.tinvAt(cur.st, a, pt), []string{"C01"}, pos, "type invariant "+e.tinvName(pt)+" of local variable "+al.Comment+" must hold when its address is "+how)
 	}
 }
 
